@@ -31,7 +31,15 @@ def _negate(test):
         return test.operand
     if isinstance(test, ast.Compare) and len(test.ops) == 1 and type(test.ops[0]) in _NEG:
         return ast.copy_location(ast.Compare(test.left, [_NEG[type(test.ops[0])]()], test.comparators), test)
+    if isinstance(test, ast.BoolOp) and all(_negatable(v) for v in test.values):
+        # De Morgan, only when every operand has a negation without `not`
+        op = ast.Or() if isinstance(test.op, ast.And) else ast.And()
+        return ast.copy_location(ast.BoolOp(op, [_negate(v) for v in test.values]), test)
     return ast.copy_location(ast.UnaryOp(ast.Not(), test), test)
+
+
+def _negatable(t):
+    return (isinstance(t, ast.Compare) and len(t.ops) == 1 and type(t.ops[0]) in _NEG) or (isinstance(t, ast.UnaryOp) and isinstance(t.op, ast.Not))
 
 
 class Canon(ast.NodeTransformer):
@@ -131,9 +139,121 @@ def _inline_return_temps(fn):
         setattr(node, fld, out)
 
 
+def _bodies(node):
+    for x in ast.walk(node):
+        for fld in ('body', 'orelse', 'finalbody'):
+            lst = getattr(x, fld, None)
+            if isinstance(lst, list) and lst and isinstance(lst[0], ast.stmt):
+                yield x, fld, lst
+        if isinstance(x, ast.Try):
+            for h in x.handlers:
+                yield h, 'body', h.body
+
+
+def _counting_loops(fn):
+    """`v = A` directly followed by `while v < B: BODY; v += C` (C a positive constant, BODY without `continue` and without
+    another store to v, B not stored in the loop, v not read after the loop) is the same iteration as `for v in range(A, B, C): BODY`:
+    both spellings are brought to the for form."""
+    changed = True
+    while changed:
+        changed = False
+        for owner, fld, lst in list(_bodies(fn)):
+            for i in range(len(lst) - 1):
+                a, w = lst[i], lst[i + 1]
+                if not (isinstance(a, ast.Assign) and len(a.targets) == 1 and isinstance(a.targets[0], ast.Name) and isinstance(w, ast.While)
+                        and not w.orelse and isinstance(w.test, ast.Compare) and len(w.test.ops) == 1 and isinstance(w.test.ops[0], ast.Lt)
+                        and isinstance(w.test.left, ast.Name) and w.test.left.id == a.targets[0].id and w.body):
+                    continue
+                v = a.targets[0].id
+                last = w.body[-1]
+                if not (isinstance(last, ast.AugAssign) and isinstance(last.op, ast.Add) and isinstance(last.target, ast.Name) and last.target.id == v
+                        and isinstance(last.value, ast.Constant) and isinstance(last.value.value, int) and last.value.value > 0):
+                    continue
+                inner = w.body[:-1]
+                if not inner:
+                    continue
+                bad = False
+                bound_names = set(x.id for x in ast.walk(w.test.comparators[0]) if isinstance(x, ast.Name))
+                for st in inner:
+                    for x in ast.walk(st):
+                        if isinstance(x, ast.Continue):
+                            bad = True
+                        if isinstance(x, ast.Name) and isinstance(x.ctx, (ast.Store, ast.Del)) and (x.id == v or x.id in bound_names):
+                            bad = True
+                        if isinstance(x, (ast.FunctionDef, ast.Lambda)):
+                            bad = True
+                # v must not be read after the loop
+                after = False
+                seen_loop = False
+                for x in ast.walk(fn):
+                    pass
+                rest = lst[i + 2:]
+                for st in rest:
+                    for x in ast.walk(st):
+                        if isinstance(x, ast.Name) and x.id == v and isinstance(x.ctx, ast.Load):
+                            after = True
+                if bad or after or owner is not fn and any(isinstance(x, ast.Name) and x.id == v for st in _stmts_after(fn, owner) for x in ast.walk(st)):
+                    continue
+                rng = ast.Call(func=ast.Name(id='range', ctx=ast.Load()), args=[a.value, w.test.comparators[0], last.value], keywords=[])
+                loop = ast.For(target=ast.Name(id=v, ctx=ast.Store()), iter=rng, body=inner, orelse=[], type_comment=None)
+                ast.copy_location(loop, w)
+                lst[i:i + 2] = [loop]
+                changed = True
+                break
+            if changed:
+                break
+
+
+def _stmts_after(fn, owner):
+    """statements of fn that can run after `owner` finished (conservative: everything that is not inside owner)."""
+    inside = set(id(x) for x in ast.walk(owner))
+    return [st for st in ast.walk(fn) if isinstance(st, ast.stmt) and id(st) not in inside and st is not fn
+            and getattr(st, 'lineno', 0) > getattr(owner, 'end_lineno', getattr(owner, 'lineno', 0))]
+
+
+def _guard_continue(fn):
+    """Inside a loop body `if C: continue` followed by REST (to the end of the body) is `if not C: REST`."""
+    for loop in ast.walk(fn):
+        if not isinstance(loop, (ast.For, ast.While)):
+            continue
+        changed = True
+        while changed:
+            changed = False
+            body = loop.body
+            for i, st in enumerate(body):
+                if isinstance(st, ast.If) and not st.orelse and len(st.body) == 1 and isinstance(st.body[0], ast.Continue) and i + 1 < len(body):
+                    # a trailing counter increment of a while loop must stay outside
+                    rest = body[i + 1:]
+                    new = ast.If(test=_negate(st.test), body=rest, orelse=[])
+                    ast.copy_location(new, st)
+                    loop.body = body[:i] + [new]
+                    changed = True
+                    break
+
+
+class _SliceCall(ast.NodeTransformer):
+    """x[slice(a, b)] is x[a:b]"""
+    def visit_Subscript(self, n):
+        self.generic_visit(n)
+        s = n.slice
+        if isinstance(s, ast.Call) and isinstance(s.func, ast.Name) and s.func.id == 'slice' and not s.keywords and 1 <= len(s.args) <= 3:
+            a = list(s.args)
+            if len(a) == 1:
+                lo, hi, st = None, a[0], None
+            else:
+                lo, hi, st = a[0], a[1], (a[2] if len(a) == 3 else None)
+            def none(e):
+                return None if (isinstance(e, ast.Constant) and e.value is None) else e
+            n.slice = ast.Slice(lower=none(lo), upper=none(hi), step=none(st))
+        return n
+
+
 def canonical(tree):
     tree = Canon().visit(tree)
+    tree = _SliceCall().visit(tree)
     for fn in ast.walk(tree):
         if isinstance(fn, (ast.FunctionDef, ast.AsyncFunctionDef)):
             _inline_return_temps(fn)
+            _guard_continue(fn)
+            _counting_loops(fn)
     return ast.fix_missing_locations(tree)
